@@ -664,4 +664,20 @@ Section SignedPermTiling.
     intros Hok. destruct (tiling_signed_perm q p f c Hok) as (f' & o & _ & _ & Ho & _ & _ & Hp).
     exists o. split; [exact Ho|]. rewrite !kang_same. exact Hp.
   Qed.
+
+  (** both engines with the same vertex order, and the patch count *)
+  Theorem tiling_signed_perm_both (q : @quad T) p f c : wall_ok q p f c ->
+    exists f' o, f' < 3 /\ sigma f' = f /\ o < 8 /\
+      wall_ok (map_quad m q) p f' (ed f' * c)%T /\
+      total_number_of_patches (map_quad m q) p = total_number_of_patches q p /\
+      Permutation (create_patches (map_quad m q) p)
+                  (map (fun Q => reorder o (map_quad m Q)) (create_patches q p)) /\
+      Permutation (kang_patches (map_quad m q) p)
+                  (map (fun Q => reorder o (map_quad m Q)) (kang_patches q p)).
+  Proof.
+    intros Hok. destruct (tiling_signed_perm q p f c Hok) as (f' & o & Hf' & Ef & Ho & Hw & _ & Hp).
+    exists f', o. split; [exact Hf'|]. split; [exact Ef|]. split; [exact Ho|]. split; [exact Hw|].
+    split; [|split; [exact Hp|rewrite !kang_same; exact Hp]].
+    rewrite !total_eq_length, (Permutation_length Hp). apply map_length.
+  Qed.
 End SignedPermTiling.
